@@ -283,7 +283,7 @@ func checkC13(P *Program, r *Result, tier string) {
 	r.Explanation = "Sibling agreement between readUnknownField, unknownFieldLength and writeUnknownField (and their list-level wrappers): TRIPLE (every wire type has a case in all three; the codec function used, the Go type stored/asserted and the container tag fields agree), " +
 		"LEN (on each enumerated path class — per type, containers with 0/1/2 elements — the length function and the writer add up to the same linear form over per-element recursion symbols), " +
 		"CURSOR-ARG (every codec/recursive call is issued at the running cursor, on every enumerated path), FRESH-OUT (the reader recursion always receives a zeroed UnknownField: a fresh make() element or a local reset since its last use), " +
-		"TAGS (KeyType/ValType are stored only in the MAP / SET / LIST cases and from the container header that was read)."
+		"LOOP-BOUND (each element loop runs exactly as often as the container header declares), TAGS (KeyType/ValType are stored only in the MAP / SET / LIST cases and from the container header that was read)."
 	A := newAnalysis(P)
 	conv := P.Func(relUF, "ConvertUnknownFields")
 	lns := P.Func(relUF, "UnknownFieldsLength")
@@ -601,6 +601,34 @@ func checkC13(P *Program, r *Result, tier string) {
 			}
 			r.add("TAGS", shortName(rd), "make", fmt.Sprintf("type %d: the element slice has %d × size entries", k, want), P.pos(instrPos(mk)), okN, "length is "+A.linString(n))
 		}
+	}
+
+	// ---------- LOOP-BOUND ----------
+	nl := loopBoundRule(P, r, "LOOP-BOUND", rd, func(c *ssa.Call) bool { return c.Common().StaticCallee() == rd }, func(v ssa.Value) bool {
+		ex, ok := v.(*ssa.Extract)
+		if !ok {
+			return false
+		}
+		c, ok := ex.Tuple.(*ssa.Call)
+		if !ok {
+			return false
+		}
+		cal := c.Common().StaticCallee()
+		return isBinaryProtocolMethod(cal) && (cal.Name() == "ReadMapBegin" && ex.Index == 2 || (cal.Name() == "ReadListBegin" || cal.Name() == "ReadSetBegin") && ex.Index == 1)
+	})
+	for _, f := range P.reachable([]*ssa.Function{rd}, func(f *ssa.Function) bool { return f.Pkg != rd.Pkg }) {
+		if f != rd {
+			nl += loopBoundRule(P, r, "LOOP-BOUND", f, func(c *ssa.Call) bool { return c.Common().StaticCallee() == rd }, func(v ssa.Value) bool {
+				// inside a helper the count arrives as a parameter or as the length of the destination slice
+				if _, isP := v.(*ssa.Parameter); isP {
+					return true
+				}
+				return builtinCall(v, "len") != nil
+			})
+		}
+	}
+	if nl < 2 {
+		r.fatal("expected the element loops of the unknown-field reader (set/list and map), found %d", nl)
 	}
 
 	// ---------- FRESH-OUT ----------
